@@ -49,7 +49,7 @@ def configs(tier, seed):
                         continue
                     if p >= 17 and (st != 1 or aw != aw0 or (tier == "quick" and dw != 16)):
                         continue
-                    out.append({"pins": p, "dw": dw, "aw": aw, "stages": st})
+                    out.append({"pins": p, "dw": dw, "aw": aw, "stages": st, "base": aw == aw0})
     return out
 
 
@@ -233,6 +233,58 @@ def queries(h, cfg):
             return a, z3.Or(*bad) if bad else z3.BoolVal(False)
         return length, build
 
+    # ---- (6) every cycle: pins follow the table for the mode / output bit in force in that very cycle ----------
+    def pins_every_cycle(ops):
+        """Mode and Output are written first (state known), then `ops` over {'MW','OW','SW'} back to back; from
+        the cycle both values have landed, in EVERY cycle each pin shows the table entry for the Mode / Output
+        value in force (a write whose last chunk is at frame T is in force from frame T+2)."""
+        def length(h):
+            tot = nchunks(h, "Mode") + nchunks(h, "Output")
+            for op in ops:
+                tot += {"MW": nchunks(h, "Mode"), "OW": nchunks(h, "Output"), "SW": nchunks(h, "SetClr")}[op]
+            return tot + 3
+
+        def build(h, fr):
+            a, MV, t = write_reg(h, fr, 0, "Mode", 2 * P)
+            ev = [(t - 1 + 2, "M", MV)]
+            a2, OV, t = write_reg(h, fr, t, "Output", P)
+            a += a2
+            ev.append((t - 1 + 2, "O", OV))
+            known = t - 1 + 2
+            for op in ops:
+                reg, w = {"MW": ("Mode", 2 * P), "OW": ("Output", P), "SW": ("SetClr", 2 * P)}[op]
+                a2, V, t = write_reg(h, fr, t, reg, w)
+                a += a2
+                ev.append((t - 1 + 2, {"MW": "M", "OW": "O", "SW": "S"}[op], V))
+            for f in fr[t:]:
+                a += idle(h, f)
+            bad = []
+            for frame in range(known, len(fr)):
+                mode = None
+                bits = None
+                for eff, kind, V in ev:
+                    if eff > frame:
+                        continue
+                    if kind == "M":
+                        mode = V
+                    elif kind == "O":
+                        bits = [z3.Extract(k, k, V) for k in range(P)]
+                    else:
+                        bits = [z3.If(z3.Extract(2 * k + 1, 2 * k, V) == 1, bv(1, 1),
+                                      z3.If(z3.Extract(2 * k + 1, 2 * k, V) == 2, bv(1, 0), bits[k])) for k in range(P)]
+                f = fr[frame]
+                for k in range(P):
+                    m_ = z3.Extract(2 * k + 1, 2 * k, mode)
+                    pin = h.g.pins[k]
+                    o, oe = f.sig(pin.o), f.sig(pin.oe)
+                    alt = z3.Extract(k, k, f.sig(h.g.alt_mode))
+                    bad.append(oe != z3.If(m_ == 1, bv(1, 1), z3.If(m_ == 2, ~bits[k], bv(1, 0))))
+                    bad.append(alt != z3.If(m_ == 3, bv(1, 1), bv(1, 0)))
+                    bad.append(z3.And(m_ == 1, o != bits[k]))
+                    bad.append(z3.And(m_ == 2, oe == 1, o != 0))
+            return a, z3.Or(*bad)
+        return length, build
+
     def k_setclr(h):
         return nchunks(h, "Output") * 2 + nchunks(h, "SetClr") + 2
 
@@ -271,7 +323,9 @@ def queries(h, cfg):
             Q("two-setclr-writes-back-to-back", k_setclr(h) + nchunks(h, "SetClr"), setclr_twice, max_prefix=2)] + \
         ([Q("seq-" + "-".join(ops), seq_query(ops)[0](h), seq_query(ops)[1], max_prefix=2)
           for ops in (("SW", "OR"), ("SW", "OW"), ("OW", "SW"), ("SW", "OR", "SW"), ("OR", "SW", "OW"), ("SW", "SW", "OR"),
-                      ("OW", "OR"), ("SW", "OW", "OR"))] if (stages == 2 or P >= 17) else [])
+                      ("OW", "OR"), ("SW", "OW", "OR"))] if ((stages == 2 and cfg.get("base")) or P >= 17) else []) + \
+        ([Q("pins-every-cycle-" + "-".join(ops), pins_every_cycle(ops)[0](h), pins_every_cycle(ops)[1], max_prefix=2)
+          for ops in (("MW",), ("MW", "OW"), ("SW", "MW"), ("OW", "MW", "SW"))] if (stages == 2 and P <= 5 and cfg.get("base")) else [])
 
 
 def check(cfg, out, stats):
